@@ -4,6 +4,8 @@ import re
 import hir as H
 import mir as M
 import rulelib as L
+import symrules as SR
+import sym
 
 CRATES = ["identity_jose", "identity_eddsa_verifier", "identity_ecdsa_verifier", "identity_credential", "identity_document", "identity_storage"]
 DEC = "identity_jose::jws::decoder"
@@ -19,6 +21,96 @@ SEE_THROUGH = re.compile(r"(decode_b64_json|::try_from|::from_bytes|::from|::dec
 ACC = re.compile(r"JwsHeader::(alg|b64)$|JwsAlgorithm::name$")
 
 
+
+PROT = SR.fld("protected", base=SR.param("jws_signature"))
+UNPROT = SR.fld("header", base=SR.param("jws_signature"))
+DS_OPAQUE = r"validate_jws_headers$|create_message$|DecodedHeaders::new$|::decode_b64(_json)?$|encode_b64|serde_json::|::to_json|ToJson"
+
+
+def _decode_signature_table(F, r1, dfn):
+    """Abstract evaluation of Decoder::decode_signature (helpers inlined): what every accepting path signs over and returns."""
+    tab = SR.Table(F, dfn, opaque=DS_OPAQUE, rule=r1, max_paths=4000)
+    oks = tab.ok()
+    out = []
+    for q in oks:
+        item = q.ret.fields[0] if isinstance(q.ret, sym.V) and q.ret.fields else None
+        if not isinstance(item, sym.St) or not item.ty.endswith("JwsValidationItem"):
+            r1.fail((dfn, "item-not-visible"), "decode_signature returns a value whose construction the evaluator cannot see: %r" % (item,))
+            continue
+        out.append((q, item))
+        cms = q.calls(r"create_message$")
+        if not r1.require(len(cms) == 1, (dfn, "create_message-count"), "expected exactly one create_message call on an accepting path, found %d" % len(cms)):
+            continue
+        a0, a1 = cms[0].args[0], cms[0].args[1]
+        prot_present = SR.variant(q, PROT)
+        ok0 = SR.derives(a0, PROT) if prot_present != "None" else not SR.derives_any(a0, [SR.param("payload"), UNPROT])
+        r1.require(ok0 and not any(isinstance(x, tuple) and x[:1] == ("call",) and x[1] != "identity_jose::jwu::serde::create_message" and "as_bytes" not in x[1] for x in sym.subterms(sym.term(a0))),
+                   (dfn, "signing-input-header"), "create_message's first operand is not the bytes of the received protected segment: %r" % (a0,))
+        r1.require(sym.term(a1) == SR.param("payload"), (dfn, "signing-input-payload"), "create_message's second operand is not the received payload: %r" % (a1,))
+        si = item.f.get("signing_input")
+        r1.require(si is not None and SR.derives(si, cms[0].result.t), (dfn, "signing_input-field"), "JwsValidationItem.signing_input is not the result of create_message: %r" % (si,))
+        sg = item.f.get("decoded_signature")
+        want = ("call", B64 + "::decode_b64", (SR.fld("signature", base=SR.param("jws_signature")),))
+        r1.require(sg is not None and SR.derives(sg, want), (dfn, "decoded_signature-field"), "decoded_signature is not decode_b64(jws_signature.signature): %r" % (sg,))
+        for e in q.events:
+            if e.kind == "call" and re.search(r"(encode_b64|serde_json::(to_string|to_vec|to_value)|ToJson|to_json)", e.fn or ""):
+                r1.fail((dfn, "re-serialise", e.fn), "decode_signature calls the encoder/serialiser %s: the signing input may be built from re-serialised data" % e.fn)
+    if oks:
+        r1.site("decode_signature: %d accepting path(s): signing_input = create_message(bytes(jws_signature.protected), payload), decoded_signature = decode_b64(jws_signature.signature)" % len(oks))
+        r1.site("decode_signature: create_message operand 0 ← jws_signature.protected")
+        r1.site("decode_signature: create_message operand 1 ← payload")
+    return out
+
+
+def _b64_reads(q):
+    """Decision terms of path q that read a header's `b64` member: [(term, from_protected)]"""
+    out = []
+    for t_ in list(q.variant) + [a[1] for a, _, _, _ in q.decisions if a[0] == "truth"]:
+        if any(isinstance(x, tuple) and x[:1] == ("field",) and x[2] == "b64" for x in sym.subterms(t_)):
+            out.append((t_, SR.derives(t_, PROT)))
+    return out
+
+
+def _b64_sources(r2, item_paths, dfn):
+    if item_paths is None:
+        return
+    n = 0
+    for q, item in item_paths:
+        for t_, prot in _b64_reads(q):
+            n += 1
+            r2.require(prot, (dfn, "header-source", "b64"), "decode_signature branches on a b64 value that does not come from the protected header: %s" % sym.fmt(t_))
+    r2.site("decode_signature: %d b64 read(s) on accepting paths, all from the decoded protected header" % n)
+
+
+def _claims_rule(r4, item_paths, dfn):
+    if item_paths is None:
+        return
+    seen = set()
+    for q, item in item_paths:
+        claims = item.f.get("claims")
+        # effective b64 on this path: true unless the protected header carries b64 = false
+        eff = True
+        for t_, prot in _b64_reads(q):
+            if q.variant.get(t_) == "Some":
+                tv = q.val.get(("truth", ("payload", t_, "Some", 0)))
+                if tv is False:
+                    eff = False
+        kind = claims.name if isinstance(claims, sym.V) else None
+        seen.add((eff, kind))
+        inner = claims.fields[0] if isinstance(claims, sym.V) and claims.fields else None
+        if eff:
+            dec = ("call", B64 + "::decode_b64", (SR.param("payload"),))
+            ok = kind == "Owned" and inner is not None and SR.derives(inner, dec) and SR.call_succeeded(q, r"::decode_b64$", {0: lambda a: sym.term(a) == SR.param("payload")})
+            r4.require(ok, (dfn, "claims-owned"), "with b64 absent/true the claims are not Owned(decode_b64(payload)?): %r" % (claims,))
+        else:
+            ok = kind == "Borrowed" and inner is not None and sym.term(inner) == SR.param("payload")
+            r4.require(ok, (dfn, "claims-borrowed"), "with b64=false the claims are not the received payload itself: %r" % (claims,))
+    for row in sorted(seen, key=str):
+        r4.site("claims rule: effective b64 %s → %s" % row)
+    r4.require({e for e, _ in seen} == {True, False} or not item_paths, (dfn, "claims-rule"), "decode_signature does not distinguish b64=false from b64 absent/true: %s" % sorted(seen, key=str))
+    r4.site("JwsValidationItem{claims ← payload}")
+
+
 def run(F, R, tier):
     R.undecided += [
         "that the ed25519 / p256 / k256 libraries reject every mutated message or signature (cryptography) — the single-bit-flip consequence follows from R1–R6 and their soundness",
@@ -29,15 +121,7 @@ def run(F, R, tier):
 
     # ------------------------------------------------------------------ R1 signing input = received bytes
     r1 = R.rule("C01-R1", "T3+T1", "signing input = create_message(received protected segment bytes, received payload); nothing re-serialised")
-    if r1.anchor(dh, dfn):
-        env = H.Env(dh)
-        n0 = L.arg_origin_check(r1, F, dfn, SER + "::create_message", 0, [("param", "jws_signature", "protected")], "signing-input-header", env, dh)
-        n1 = L.arg_origin_check(r1, F, dfn, SER + "::create_message", 1, [("param", "payload")], "signing-input-payload", env, dh)
-        r1.require(n0 == 1, (dfn, "create_message-count"), "expected exactly one create_message call in decode_signature, found %d" % n0)
-        # no encoder/serialiser is called anywhere in decode_signature
-        for fn in H.called_fns(H.root(dh)):
-            if re.search(r"(encode_b64|encode_b64_json|serde_json::(to_string|to_vec|to_value)|ToJson|to_json)", fn):
-                r1.fail((dfn, "re-serialise", fn), "decode_signature calls the encoder/serialiser %s: the signing input may be built from re-serialised data" % fn)
+    item_paths = _decode_signature_table(F, r1, dfn) if r1.anchor(dh, dfn) else None
     # create_message: header, '.', claims in that order
     cm = F.hir(SER + "::create_message")
     if r1.anchor(cm, "create_message"):
@@ -61,17 +145,6 @@ def run(F, R, tier):
         r1.site("construction of JwsValidationItem in %s" % L.short(p))
         r1.require(p == dfn, (p, "constructs-JwsValidationItem"), "JwsValidationItem is constructed in %s, outside decode_signature" % p)
     r1.require(len(cons) == 1, (ITEM, "construction-count"), "expected 1 construction site of JwsValidationItem, found %d" % len(cons))
-    if dh:
-        env = H.Env(dh)
-        for s in H.struct_lits(dh):
-            if s.get("ty") == ITEM:
-                fl = {f["name"]: f["e"] for f in s["fields"]}
-                so = H.origins(fl.get("signing_input"), env)
-                r1.site("JwsValidationItem{signing_input ← %s}" % sorted(map(str, so)), s["sp"])
-                r1.require(so == {("call", SER + "::create_message")}, (dfn, "signing_input-field"), "signing_input field is not the result of create_message: %s" % sorted(map(str, so)))
-                sg = H.origins(fl.get("decoded_signature"), env, extra=re.compile(r"decode_b64$"))
-                r1.require(sg == {("param", "jws_signature", "signature")}, (dfn, "decoded_signature-field"), "decoded_signature is not decode_b64(jws_signature.signature): %s" % sorted(map(str, sg)))
-                r1.site("JwsValidationItem{decoded_signature ← %s}" % sorted(map(str, sg)), s["sp"])
     for (p, bi, kind, d) in F.field_writes(ITEM, "signing_input") + F.field_writes(ITEM, "decoded_signature") + F.field_writes(ITEM, "claims") + F.field_writes(ITEM, "headers"):
         r1.fail((p, "mutates-JwsValidationItem"), "a field of JwsValidationItem is written after construction in %s" % p)
     # borrowed segments (T13)
@@ -87,10 +160,11 @@ def run(F, R, tier):
     # ------------------------------------------------------------------ R2 algorithm / b64 come from the protected header only
     r2 = R.rule("C01-R2", "T3", "every alg()/b64() read on the verification path has a receiver derived from the protected header")
     n = 0
+    _b64_sources(r2, item_paths, dfn)
     for fn in F.find(r"^identity_jose::jws::decoder::"):
         h = F.hir(fn)
-        if not h:
-            continue
+        if not h or not (fn.endswith("JwsValidationItem::verify") or fn.endswith("JwsValidationItem::alg") or "::DecodedHeaders::" in fn):
+            continue   # decode_signature and its helpers are decided by abstract evaluation above
         env = H.Env(h)
         for c in H.calls(h, re.compile(r"JwsHeader::(alg|b64)$")):
             recv = H.call_args(c)[0]
@@ -148,76 +222,27 @@ def run(F, R, tier):
     a = F.adt(DEC + "::DecodedJws")
     if r3.anchor(a, "DecodedJws"):
         r3.require(a["variants"][0]["non_exhaustive"] or a["non_exhaustive"], ("DecodedJws", "non_exhaustive"), "DecodedJws is no longer #[non_exhaustive]: it can be built outside identity_jose")
-    # check_alg table
-    ch = F.hir(JWK + "::check_alg")
-    if r3.anchor(ch, "Jwk::check_alg"):
-        env = H.Env(ch)
-        m = H.find_first(ch, lambda n: n.get("k") == "match" and n.get("src") == "normal")
-        if r3.require(m is not None, ("check_alg", "table"), "check_alg decision table not found"):
-            rows = [(H.pat_str(a_["pat"]), a_.get("guard"), H.outcome(a_["body"])) for a_ in m["arms"]]
-            so = H.origins(m["scrut"], env, accessors=re.compile(r"Jwk::alg$"))
-            r3.require(so == {("param", "self", "alg")}, ("check_alg", "scrutinee"), "check_alg does not match on self.alg(): %s" % sorted(map(str, so)))
-            ok_rows = True
-            seen_some_err = False
-            for ps, g, oc in rows:
-                r3.site("check_alg row %s%s → %s" % (ps, " if guard" if g else "", oc))
-                if ps == "Some(_)" and g is not None:
-                    gg = H.strip(g)
-                    good = gg.get("k") == "binary" and gg.get("op") == "Eq" and oc == "Ok"
-                    if good:
-                        oo = H.origins(gg["l"], env, accessors=re.compile(r"Jwk::alg$")) | H.origins(gg["r"], env)
-                        good = any(o[:2] == ("param", "expected") for o in oo) and any(o[:3] == ("param", "self", "alg") for o in oo)
-                    ok_rows &= good and not seen_some_err
-                elif ps == "Some(_)":
-                    seen_some_err = True
-                    ok_rows &= oc.startswith("Err(")
-                elif ps == "None":
-                    ok_rows &= oc == "Ok"
-                else:
-                    ok_rows = False
-            r3.require(ok_rows and seen_some_err, ("check_alg", "rows"), "check_alg table is not {alg==expected→Ok, alg≠expected→Err, no alg→Ok}: %s" % [(a_, bool(b_), c_) for a_, b_, c_ in rows])
+    # check_alg decision table, derived by abstract evaluation (independent of how the function spells it):
+    #   alg absent → Ok ; alg present ∧ alg == expected → Ok ; alg present ∧ alg ≠ expected → Err
+    tab = SR.Table(F, JWK + "::check_alg", rule=r3)
+    ALG = SR.fld("alg")
+    rows = set()
+    for q in tab.paths:
+        present = SR.variant(q, ALG)
+        eqv = SR.eq_value(q, ALG, SR.param("expected"))
+        rows.add((present, eqv, "Ok" if SR.is_success(q.ret) else "Err"))
+    for row in sorted(rows, key=str):
+        r3.site("check_alg row: alg %s, alg==expected %s → %s" % row)
+    bad = [r_ for r_ in rows if not ((r_[0] == "None" and r_[2] == "Ok") or (r_[0] == "Some" and r_[1] is True and r_[2] == "Ok") or (r_[0] == "Some" and r_[1] is False and r_[2] == "Err"))]
+    want = {("None", None, "Ok"), ("Some", True, "Ok"), ("Some", False, "Err")}
+    if tab.paths:
+        r3.require(not bad and want <= rows, ("check_alg", "rows"),
+                   "check_alg table is not {no alg→Ok, alg==expected→Ok, alg≠expected→Err}: %s" % sorted(rows, key=str))
     r3.floor(13)
 
     # ------------------------------------------------------------------ R4 claims = signed payload
     r4 = R.rule("C01-R4", "T3+T4", "claims = Owned(decode_b64(payload)) when protected b64 is absent/true, Borrowed(payload) otherwise; same payload as the signing input")
-    if dh:
-        env = H.Env(dh)
-        found = False
-        for n_ in H.walk(H.root(dh)):
-            if n_.get("k") != "if" or n_.get("else") is None:
-                continue
-            t_tag, t_in = H.ctor_class(n_["then"])
-            e_tag, e_in = H.ctor_class(n_["else"])
-            if {t_tag, e_tag} != {"Owned", "Borrowed"}:
-                continue
-            found = True
-            cond = n_["cond"]
-            inner, neg = H.negated(cond)
-            co = H.origins(inner, env, extra=re.compile(r"decode_b64_json$"), accessors=ACC)
-            lits = H.literals(cond)
-            # default value when absent
-            r4.site("claims rule: if %s%s (default %s) {%s} else {%s}" % ("!" if neg else "", sorted(map(str, co)), lits, t_tag, e_tag), n_["sp"])
-            r4.require(all(o[:3] == ("param", "jws_signature", "protected") and o[-1] == "b64" for o in co) and co, (dfn, "claims-cond"), "the claims rule does not branch on the protected header's b64: %s" % sorted(map(str, co)))
-            dflt = _b64_default(F, cond)
-            r4.require(dflt is True, (dfn, "claims-default"), "the claims rule's default for an absent b64 is %r, expected true (RFC 7797)" % (dflt,))
-            true_branch = t_tag if not neg else e_tag
-            r4.require(true_branch == "Owned", (dfn, "claims-polarity"), "b64=true must base64url-decode the payload (found %s on the true branch)" % true_branch)
-            owned_in = t_in if t_tag == "Owned" else e_in
-            borrowed_in = e_in if t_tag == "Owned" else t_in
-            oo = H.origins(owned_in, env, extra=re.compile(r"decode_b64$"))
-            called = H.called_fns(owned_in) if owned_in else set()
-            r4.require(oo == {("param", "payload")} and B64 + "::decode_b64" in called, (dfn, "claims-owned"), "decoded claims are not decode_b64(payload): %s" % sorted(map(str, oo)))
-            bo = H.origins(borrowed_in, env)
-            r4.require(bo == {("param", "payload")}, (dfn, "claims-borrowed"), "unencoded claims are not the received payload: %s" % sorted(map(str, bo)))
-            # the literal is the `claims` field
-        r4.require(found, (dfn, "claims-rule"), "the Owned/Borrowed claims rule was not found in decode_signature")
-        for s in H.struct_lits(dh):
-            if s.get("ty") == ITEM:
-                for f in s["fields"]:
-                    if f["name"] == "claims":
-                        oo = H.origins(f["e"], env, extra=re.compile(r"decode_b64$"))
-                        r4.require(oo == {("param", "payload")}, (dfn, "claims-field"), "JwsValidationItem.claims does not derive from the payload parameter: %s" % sorted(map(str, oo)))
-                        r4.site("JwsValidationItem{claims ← payload}", f["e"].get("sp"))
+    _claims_rule(r4, item_paths, dfn)
     # the three entry points hand decode_signature the expanded payload and the parsed signature
     for ep, pay_src in (("decode_compact_serialization", None), ("decode_flattened_serialization", None)):
         fn = DEC + "::Decoder::" + ep
@@ -403,17 +428,38 @@ def _const_bool(F, path):
 
 
 def extract_b64_default(F):
-    h = F.hir(SER + "::extract_b64")
-    if not h:
-        return None
-    for n in H.walk(H.root(h)):
-        if n.get("k") == "mcall" and n["name"] == "unwrap_or":
-            a = H.strip(n["args"][0])
-            if a.get("k") == "path" and a.get("res", {}).get("def"):
-                return _const_bool(F, a["res"]["def"])
-            lits = H.literals(a)
-            if lits and isinstance(lits[0], bool):
-                return lits[0]
+    """Value extract_b64 yields when the header or its b64 member is absent, by abstract evaluation (None if not uniform)."""
+    tab = SR.Table(F, SER + "::extract_b64")
+    vals = set()
+    passthrough = False
+    for q in tab.paths:
+        present = any(v_ == "Some" and any(isinstance(x, tuple) and x[:1] == ("field",) and x[2] == "b64" for x in sym.subterms(t_)) for t_, v_ in q.variant.items())
+        if present:
+            passthrough = passthrough or isinstance(q.ret, sym.Sym)
+        else:
+            vals.add(q.ret if isinstance(q.ret, bool) else None)
+    if len(vals) == 1 and passthrough:
+        return vals.pop()
+    return None
+
+
+def decoder_b64_default(F):
+    """How decode_signature treats an absent b64: True if the claims are base64url-decoded (Owned) on every such accepting path."""
+    class _N:
+        def fail(self, *a, **k):
+            pass
+        require = lambda self, c, *a, **k: bool(c)  # noqa: E731
+        site = note = fail
+    items = _decode_signature_table(F, _N(), DEC + "::Decoder::decode_signature")
+    kinds = set()
+    for q, item in items or []:
+        if not any(q.variant.get(t_) == "Some" for t_, _ in _b64_reads(q)):
+            c = item.f.get("claims")
+            kinds.add(c.name if isinstance(c, sym.V) else None)
+    if kinds == {"Owned"}:
+        return True
+    if kinds == {"Borrowed"}:
+        return False
     return None
 
 
